@@ -5,7 +5,10 @@ from .. import gen, specs, guardlib
 from ..check import Stream, run_check
 from ..core import s_bool, s_exc, e_list
 
-EXCS = ['Exception', 'ValueError', 'KeyError', 'RuntimeError', 'Custom1', 'TypeError']
+EXCS = ['Exception', 'ValueError', 'KeyError', 'RuntimeError', 'Custom1', 'TypeError',
+        # classes the interpreter itself gives a meaning to (iteration / generator protocols, lookups, arithmetic)
+        'StopIteration', 'StopAsyncIteration', 'StopIteration', 'LookupError', 'ArithmeticError', 'AssertionError',
+        'NotImplementedError', 'OSError', 'RecursionError']
 
 
 class FaultyStorage:
@@ -117,7 +120,12 @@ class FaultStream(Stream):
             for j in range(ncalls):
                 yield dict(sc, fault=['fits_raise', j, rng.choice(EXCS)])
             if rng.random() < 0.3:
-                yield dict(sc, fault=['iter_raise', rng.randint(0, npol), 'Base1'])
+                yield dict(sc, fault=['iter_raise', rng.randint(0, npol), rng.choice(['Base1', 'GeneratorExit'])])
+            # the same fault position with every class that has a protocol meaning
+            for j in range(ncalls):
+                yield dict(sc, fault=['fits_raise', j, 'StopIteration'])
+            for j in range(npol + 1):
+                yield dict(sc, fault=['iter_raise', j, 'StopIteration'])
 
     def emit(self, c):
         obs, eq, _ = run_case(c)
@@ -141,7 +149,7 @@ class FaultStream(Stream):
 
     def oracle(self, c, obs):
         fault = c.get('fault')
-        is_base = bool(fault) and any(isinstance(x, str) and x.startswith('Base') for x in fault)
+        is_base = bool(fault) and any(isinstance(x, str) and (x.startswith('Base') or x == 'GeneratorExit') for x in fault)
         if obs.startswith('E:'):
             return 'a decision request raised %s' % obs
         if obs.startswith('B:'):
